@@ -99,16 +99,17 @@ CallOrPartApply(callee, args) ==
 Then(v, args) == IF v.k = "err" THEN Err ELSE IF v.k \in {"unknown", "call"} THEN Unknown ELSE CallOrPartApply(v, args)
 
 Forms2 == {"infix", "call", "bang", "backtick", "sec1", "sec2", "chsec1", "chsec2", "apply", "of",
-           "juxta", "rsec", "opassign", "splat"}
+           "juxta", "rsec", "opassign", "splat", "secsp1", "secsp2"}
 Forms1 == {"call", "bang", "splat", "dot", "then", "sec"}
-Forms3 == {"call", "bang", "splat", "sec1", "sec2", "sec3", "secall"}
+Forms3 == {"call", "bang", "splat", "sec1", "sec2", "sec3", "secall", "secsp1", "secsp3", "secspmid"}
 
 \* two data arguments a, b
 Den2(form, f, a, b) ==
     CASE form \in {"infix", "backtick", "opassign"} -> Run(f, <<a, b>>)            \* f.run2(a, b)
       [] form \in {"call", "bang", "splat"} -> CallOrPartApply(f, <<a, b>>)
-      [] form = "sec1" -> Then(CallSec(f, <<Hole, b>>), <<a>>)                     \* f(_, b)(a)
-      [] form = "sec2" -> Then(CallSec(f, <<a, Hole>>), <<b>>)                     \* f(a, _)(b)
+      \* a splatted argument of a section is expanded when the section is BUILT, before or after a hole
+      [] form \in {"sec1", "secsp1"} -> Then(CallSec(f, <<Hole, b>>), <<a>>)       \* f(_, b)(a),  f(_, ...[b])(a)
+      [] form \in {"sec2", "secsp2"} -> Then(CallSec(f, <<a, Hole>>), <<b>>)       \* f(a, _)(b),  f(...[a], _)(b)
       [] form = "chsec1" -> Then(ChainSec(Hole, f, b), <<a>>)                      \* (_ f b)(a)
       [] form = "chsec2" -> Then(ChainSec(a, f, Hole), <<b>>)                      \* (a f _)(b)
       [] form \in {"apply", "of"} -> CallFn(f, <<a, b>>)                           \* [a, b] apply f,  f of [a, b]
@@ -120,9 +121,9 @@ Den1(form, f, a) ==
       [] form = "sec" -> Then(CallSec(f, <<Hole>>), <<a>>)                         \* f(_)(a)
 Den3(form, f, a, b, c) ==
     CASE form \in {"call", "bang", "splat"} -> CallOrPartApply(f, <<a, b, c>>)
-      [] form = "sec1" -> Then(CallSec(f, <<Hole, b, c>>), <<a>>)
-      [] form = "sec2" -> Then(CallSec(f, <<a, Hole, c>>), <<b>>)
-      [] form = "sec3" -> Then(CallSec(f, <<a, b, Hole>>), <<c>>)
+      [] form \in {"sec1", "secsp1"} -> Then(CallSec(f, <<Hole, b, c>>), <<a>>)    \* f(_, ...[b, c])(a)
+      [] form \in {"sec2", "secspmid"} -> Then(CallSec(f, <<a, Hole, c>>), <<b>>)  \* f(a, _, ...[c])(b)
+      [] form \in {"sec3", "secsp3"} -> Then(CallSec(f, <<a, b, Hole>>), <<c>>)    \* f(...[a, b], _)(c)
       [] form = "secall" -> Then(CallSec(f, <<Hole, Hole, Hole>>), <<a, b, c>>)
 
 (* ------------------------------ the property --------------------------- *)
